@@ -67,6 +67,7 @@ structure GenericsD where
   typeParams : List String := []
   toks : String := ""           -- printed `<…>`
   whereToks : String := ""      -- printed where-clause
+  hasWhere : Bool := false      -- a where-clause is present (it prints as nothing when it has no predicates)
   params : List GParamD := []   -- every parameter, in source order
   deriving Inhabited
 
